@@ -71,7 +71,9 @@ def _handle_typestate(ctx, R, cls):
                 if call_attr(c) == "close" and varkey(unawait(c.func.value)) in aliases:
                     n_sites += 1
                     r = g.reach([n], avoid=clears, exc=True)
-                    R.check(g.exit not in r and g.raise_exit not in r, "HANDLE", "%s|%s" % (f.qualname, norm_stmt(n.ast)[:50]), "after the handle is closed the attribute is reset on every path out",
+                    # (resetting the attribute BEFORE closing a local snapshot of the handle is as good: `h = self._transport; self._transport = None; h.close()`)
+                    reset_first = bool(clears) and g.dominates(clears, n) and varkey(unawait(c.func.value)) != hk
+                    R.check(reset_first or (g.exit not in r and g.raise_exit not in r), "HANDLE", "%s|%s" % (f.qualname, norm_stmt(n.ast)[:50]), "after the handle is closed the attribute is reset on every path out",
                             "%s closes the libusb handle but can leave the method (normally or by an exception) with `self._transport` still bound to it: later calls pass the `is None` guard and use a closed handle" % f.qualname, f.loc(n.ast))
     R.count("HANDLE", n_sites, 1)
 
